@@ -31,9 +31,9 @@ func (c *Clock) NewTicker(d time.Duration) clockwork.Ticker {
 	c.tickers = append(c.tickers, t)
 	return t
 }
-func (c *Clock) After(d time.Duration) <-chan time.Time        { panic("env.Clock: After not modelled") }
-func (c *Clock) Sleep(d time.Duration)                         { panic("env.Clock: Sleep not modelled") }
-func (c *Clock) NewTimer(d time.Duration) clockwork.Timer      { panic("env.Clock: NewTimer not modelled") }
+func (c *Clock) After(d time.Duration) <-chan time.Time   { panic("env.Clock: After not modelled") }
+func (c *Clock) Sleep(d time.Duration)                    { panic("env.Clock: Sleep not modelled") }
+func (c *Clock) NewTimer(d time.Duration) clockwork.Timer { panic("env.Clock: NewTimer not modelled") }
 func (c *Clock) AfterFunc(d time.Duration, f func()) clockwork.Timer {
 	panic("env.Clock: AfterFunc not modelled")
 }
